@@ -71,6 +71,8 @@ var c10alphabet = []c10op{
 	{"execve-runs", rpcmodel.Op{Kind: rpcmodel.CExecve, SelfExit: true, Cancel: true}, []string{"exit-then-result", "cancel-then-kill", "exit-held-cancel-first", "exited-unreported-kill-first"}},
 	{"execve[sync-after]-start-fails", rpcmodel.Op{Kind: rpcmodel.CExecve, SyncAfter: true, StartFail: true}, nil},
 	{"execve[sync-after]-callback-fails", rpcmodel.Op{Kind: rpcmodel.CExecve, SyncAfter: true, SyncFail: true}, nil},
+	// the same refusal while the program (already running: the callback comes after exec) would never end by itself
+	{"execve[sync-after]-callback-fails(program never ends)", rpcmodel.Op{Kind: rpcmodel.CExecve, SyncAfter: true, SyncFail: true}, nil},
 	{"execve[sync-after]-runs", rpcmodel.Op{Kind: rpcmodel.CExecve, SyncAfter: true, SelfExit: true, Cancel: true}, []string{"exit-then-result", "cancel-then-kill", "exit-held-cancel-first"}},
 }
 
@@ -246,6 +248,9 @@ func (e *c10env) perform(k int, op c10op, sched string) (class int, said string,
 		wantErr = "no-such-program-" + uniq
 	case op.model.SyncFail:
 		wantErr = "callback refuses " + uniq
+		if strings.Contains(op.name, "never ends") {
+			p.Args = []string{"/probe/burn", "pause", uniq}
+		}
 	case op.model.ExecFail:
 		p.Args = []string{"/probe/no-such-program-" + uniq}
 		wantErr = "no-such-program-" + uniq
@@ -361,7 +366,7 @@ func init() {
 					execFamily = append(execFamily, i)
 				}
 				switch o.name {
-				case "open-ok", "reset", "reset-error", "execve-callback-fails", "execve-runs", "execve[sync-after]-runs":
+				case "open-ok", "reset", "reset-error", "execve-callback-fails", "execve-runs", "execve[sync-after]-runs", "execve[sync-after]-callback-fails(program never ends)":
 					reps = append(reps, i)
 				}
 			}
